@@ -692,6 +692,11 @@ class Ev:
                         kw["key"] = keyf
                     else:
                         kw[k.arg] = self.ev(k.value)
+                if f.id in ("sorted", "min", "max") and "key" not in kw and args:
+                    seq = args[0] if len(args) == 1 else args
+                    if isinstance(seq, (list, tuple)) and any(isinstance(x, Obj) and "_fields" in x.__dict__ for x in seq):
+                        # NamedTuple records order as the tuples of their fields
+                        kw["key"] = lambda x: tuple(x.__dict__[f_] for f_ in x.__dict__["_fields"]) if isinstance(x, Obj) and "_fields" in x.__dict__ else x
                 try:
                     return SAFE_BUILTINS[f.id](*args, **kw)
                 except (ValueError, TypeError, OverflowError) as err:
@@ -801,6 +806,9 @@ class Ev:
                 return recv.join(args[0])
             if isinstance(recv, str) and f.attr in STR_METHODS:
                 return getattr(recv, f.attr)(*args)
+            if isinstance(recv, list) and f.attr == "sort" and not args and any(isinstance(x, Obj) and "_fields" in x.__dict__ for x in recv):
+                recv.sort(key=lambda x: tuple(x.__dict__[f_] for f_ in x.__dict__["_fields"]) if isinstance(x, Obj) and "_fields" in x.__dict__ else x)
+                return None
             if isinstance(recv, list) and f.attr in LIST_METHODS:
                 try:
                     return getattr(recv, f.attr)(*args)
